@@ -672,8 +672,13 @@ pub fn check_files(fs: &SimFs, st: &StateDump, no_readers: bool, obs: &mut Vec<O
             }
         } else if name.ends_with(".manifest") {
             if let Some(n) = name.strip_prefix("MANIFEST-").and_then(|n| n.strip_suffix(".manifest")).and_then(|n| n.parse::<u64>().ok()) {
-                if n != st.manifest_number && no_readers {
+                if n < st.manifest_number && no_readers {
                     obs.push(Obs { sig: "c11:obsolete-manifest-kept".into(), what: format!("manifest {n} is on disk but the current manifest is {}", st.manifest_number), at });
+                }
+                if n > st.manifest_number && no_readers {
+                    // left behind by a crash in the middle of a manifest switch; the deletion pass keeps
+                    // every manifest with a number above the current one
+                    obs.push(Obs { sig: "c11:orphan-manifest-with-larger-number-kept".into(), what: format!("manifest {n} is on disk but the current manifest is {} (remove_obsolete_files keeps manifests numbered above the current one)", st.manifest_number), at });
                 }
             }
         } else if name.ends_with(".dbtemp") && no_readers {
